@@ -802,6 +802,13 @@ func genFirst(t *rapid.T, a *app.App, pct int, flags bool) {
 		return
 	}
 	f := &app.First{Content: []string{"", "first", "0"}[uniformN(t, 3, "firstcontent")]}
+	if flags && chancePct(t, 30, "firsterr") {
+		// (only where flags may be set too, i.e. where nothing is compared across runs)
+		f.ErrAt = []int{uniformN(t, 4, "firsterrat")}
+	}
+	if flags && chancePct(t, 20, "firststop") {
+		f.StopAt = []int{uniformN(t, 4, "firststopat")}
+	}
 	if flags && a.Cfg.FlagCount > 0 && chancePct(t, 40, "firstflag") {
 		f.FlagSet = []uint32{8 + uint32(uniformN(t, int(min(a.Cfg.FlagCount, 24)), "firstflagv"))}
 	}
